@@ -200,6 +200,53 @@ def run():
     except RuntimeError as ex:
         ck.coverage["model_eval_error_den"] = str(ex)[-400:]
 
+    # multi-part names (translate_ident): model emit_path vs prqlc for `from P1.P2[.P3] | select {this.C}`, all dialects;
+    # the reading-side model must read prqlc's own text back as exactly the parts
+    pnames = ["a", "A", "a.b", ".", "a b", 'a"b', "a`b".replace("`", "'"), "select", "é", "table_0", "$a", "a$", "x.y.z", "1a", "_", "user", "..", "a.", ".a"]
+    paths = [[x, y] for x in pnames for y in pnames]
+    paths += [[x, y, z] for x, y, z in (ck.rng.sample(pnames, 3) for _ in range(ck.n(120, 1500)))]
+    pdial = DIALECTS if ck.thorough else ["sqlite", "postgres", "mysql", "bigquery", "snowflake", "redshift", "mssql"]
+    preqs = [{"src": "from %s | select {this.`c`}" % ".".join(bt(x) for x in pt), "target": "sql." + d} for pt in paths for d in pdial]
+    pans = harness("compile", preqs)
+    try:
+        B = 60
+        HP = HEADER + "Definition emp (d : str) (p : list str) := emit_path_row ident_start ident_rest common_keywords dialect_keywords ident_dialects d p.\n"
+        pex = ["map (emp %s) [%s]" % (coq_codes(d), "; ".join("[" + "; ".join(coq_codes(x) for x in pt) + "]" for pt in paths[i:i + B])) for d in pdial for i in range(0, len(paths), B)]
+        pv = coq_eval(HP, pex)
+        pmodel = {}
+        k = 0
+        for d in pdial:
+            out = []
+            for i in range(0, len(paths), B):
+                out += pv[k]; k += 1
+            pmodel[d] = out
+        k = 0
+        back = []
+        for pi, pt in enumerate(paths):
+            for d in pdial:
+                a = pans[k]; k += 1
+                ck.count("path-model", d + "|" + "\x00".join(pt))
+                m = pmodel[d][pi]
+                mv = s_of(m[1]) if isinstance(m, tuple) and m[0] == "Some" else None
+                csel = '"c"' if d == "snowflake" else "c"
+                got = a["ok"][len("SELECT %s FROM " % csel):] if "ok" in a and a["ok"].startswith("SELECT %s FROM " % csel) else None
+                if got is None or mv != got:
+                    ck.violation("emit_path model differs from prqlc for %r on %s: model %r, prqlc %r" % (pt, d, mv, got if got is not None else a),
+                                 {"kind": "path-model", "parts": pt, "dialect": d, "model": mv, "impl": got, "answer": None if got is not None else a})
+                elif d in ("sqlite", "postgres", "mysql"):
+                    back.append((pt, d, got))
+        fk = {"postgres": "FoldLower", "sqlite": "FoldNone", "mysql": "FoldNone"}
+        qk = {"postgres": 34, "sqlite": 34, "mysql": 96}
+        B = 150
+        bv = [x for v in coq_eval(HEADER, ["[" + "; ".join("path_denotes %s %d %s" % (fk[d], qk[d], coq_codes(txt)) for _, d, txt in back[i:i + B]) + "]" for i in range(0, len(back), B)]) for x in v]
+        for (pt, d, txt), m in zip(back, bv):
+            ck.count("path-denotes", d + "|" + txt)
+            mv = [s_of(x) for x in m[1]] if isinstance(m, tuple) and m[0] == "Some" else None
+            if mv != pt:
+                ck.violation("on %s the text %r emitted for the path %r reads back as %r" % (d, txt, pt, mv), {"kind": "path-denotes", "parts": pt, "dialect": d, "text": txt, "denotes": mv})
+    except RuntimeError as ex:
+        ck.coverage["model_eval_error_path"] = str(ex)[-400:]
+
     # keywords must come out quoted, in every letter case, for every dialect (redshift's own list: for redshift):
     # judged on prqlc's output alone (no model needed)
     qchar = {d: ("`" if d in ("bigquery", "clickhouse", "mysql") else '"') for d in DIALECTS}
@@ -339,6 +386,10 @@ def run():
             src = ("from %s | select {%s, %s} | sort %s | take 3 | append (from %s | select {%s, %s} | sort %s | take 2) | sort %s | take 4 | filter %s != null"
                    % (fromT, c(C1), c(C2), c(C1), tU, c(C1), c(C2), c(C1), c(C2), c(C1)))
             exp = sorted([(r[C1], r[C2]) for r in srt(rt, C1)[:3]] + [(r[C1], r[C2]) for r in srt(ru, C1)[:2]], key=lambda x: x[1])[:4]
+        elif skeleton == "schema-path":
+            # a two-part table name: SQLite's schema `main` + the table (translate_ident joins the parts with a dot)
+            src = "from main.%s | select {%s, %s}" % (tT, c(C1), c(C2))
+            exp = [(r[C1], r[C2]) for r in rt]
         elif skeleton == "group":
             src = "from %s | group {%s} (aggregate {n = sum %s}) | select {%s, n}" % (fromT, c(C1), c(C2), c(C1))
             exp = [(r[C1], r[C2]) for r in rt]
@@ -373,7 +424,7 @@ def run():
         tests.append({"src": src, "setup": setup, "expected": sorted(exp), "name_at": name_at if skeleton == "dup-final-perm" else None, "names": [n for n in (T, U, alias_t, alias_u, K, C1, C2, C3) if n], "skeleton": skeleton, "position": position,
                       "cols": [K, C1, C2, C3], "tables": [T, U, alias_t, alias_u]})
 
-    SKELS = ["select", "split1", "split1-declared", "split2", "split3", "sortexpr", "join", "join-split", "group", "selfjoin", "join-sub", "join-selfjoin", "append-sub", "append-sub-split"]
+    SKELS = ["select", "split1", "split1-declared", "split2", "split3", "sortexpr", "join", "join-split", "group", "selfjoin", "join-sub", "join-selfjoin", "append-sub", "append-sub-split", "schema-path"]
     for i, n in enumerate(names + kw_names):
         av = {fold(n)}
         T, U, K, C1, C2, C3 = distinct_names(["tt", "uu", "kk", "p", "q", "r"], av)
